@@ -223,6 +223,9 @@ class Scheduler:
         if what == "dome":
             chain = gen.dome(r, (float(center[0]), float(center[1])))
             return {"op": "build", "what": "value", "value": model.jsonable(("S", chain)), "dst": dst}
+        if what in ("smallcircle", "gentle") and r.random() < 0.7:
+            # look at it (plot, print, points, box ...) and then ask about it
+            self.pending.append({"macro": "look_then_ask", "of": {"a": dst}})
         if what == "smallcircle":
             # gently curved arcs: the squared error of replacing one by its chord lies between the
             # library's 1e-9 and a careless 1e-6
@@ -982,6 +985,19 @@ class Scheduler:
     def _resolve_macro(self, world, macro):
         """Turn a queued macro into a concrete step (needs the heap after the previous step)."""
         of = macro["of"]
+        if macro["macro"] == "look_then_ask":
+            a = of["a"]
+            if a not in world.slots:
+                return None
+            look = self._oracle_flags({"op": self.rng.choice(["plot", "plot", "str", "points", "box"]), "a": a})
+            if look["op"] == "points":
+                look.update(k=0, n=self.rng.choice([0, 2]))
+            look.pop("fault", None)
+            ask = self._oracle_flags({"op": "area", "a": a})
+            ask["t1"] = ask["t2"] = True
+            ask.pop("fault", None)
+            self.pending.insert(0, ask)
+            return look
         if macro["macro"] == "inside_of":
             return self.inside_build(world, host=of["a"])
         if macro["macro"] == "same_query":
